@@ -322,7 +322,7 @@ def huge_sq(ctx, rng):
 def run(ctx):
     if ctx.shard in (0, 1) or ctx.thorough:
         huge_sq(ctx, ctx.rng())
-    n = ctx.n(360, 800)
+    n = ctx.n(600, 800)
     for i in range(n):
         case_gr(ctx, ctx.rng())
         case_sq(ctx, ctx.rng())
